@@ -125,6 +125,11 @@ def child_main(directory, start):
         for i in range(start, n):
             with open(os.path.join(directory, "progress"), "w") as fh:
                 fh.write(str(i))
+            skip = os.path.join(directory, "skip.json")
+            if os.path.exists(skip) and i in json.load(open(skip)):
+                res.write(json.dumps({"i": i, "outcome": "skipped-same-family", "detail": ""}) + "\n")
+                res.flush()
+                continue
             with open(os.path.join(directory, f"in-{i}.bin"), "rb") as fh:
                 data = fh.read()
             outcome, detail = run_one(data)
@@ -132,7 +137,7 @@ def child_main(directory, start):
             res.flush()
 
 
-def isolated_batch(ctx, datas, per_case_timeout=45):
+def isolated_batch(ctx, datas, per_case_timeout=45, families=None):
     """Evaluate inputs in a separate interpreter that is killed and restarted when one input hangs or kills it (a parse stuck in a
     C extension cannot be interrupted from inside). Returns a list of (outcome, detail) aligned with `datas`."""
     d = ctx.tmpdir("iso")
@@ -175,6 +180,11 @@ def isolated_batch(ctx, datas, per_case_timeout=45):
         if bad < len(datas) and out[bad] is None:
             out[bad] = ("slow", f"no result after {per_case_timeout} s wall for {len(datas[bad])} bytes (interpreter had to be killed)") if rc == "killed" else \
                        ("crash", f"the interpreter died with status {rc} while parsing {len(datas[bad])} bytes")
+        if families is not None:
+            # one offending input per family is enough: the remaining (larger) inputs of a family that hung or killed the interpreter are skipped
+            offending = {families[i] for i, r in enumerate(out) if r and r[0] in ("slow", "crash", "memory")}
+            with open(os.path.join(d, "skip.json"), "w") as fh:
+                json.dump([i for i in range(len(datas)) if out[i] is None and families[i] in offending], fh)
         start = bad + 1
     import shutil
 
@@ -364,13 +374,35 @@ def nesting_cases(depths):
         for _ in range(d):
             w = cb.enc(w)
         yield minimal_env(seq_bytes=w), f"bstr-wraps^{d}"
+        # the same nesting with an INVALID innermost command: the refusal travels up through every level
+        for bottom, bname in ((cb.enc([99, 0]), "unknown-command"), (cb.enc([14, 0, 14]), "odd-length"), (cb.enc([20, 7]), "bad-argument")):
+            s = bottom
+            for _ in range(d):
+                s = cb.enc([32, s])
+            yield minimal_env(seq_bytes=s), f"run-sequence-invalid-bottom/{bname}^{d}"
+            s = bottom
+            for _ in range(d):
+                s = cb.enc([15, [s]])
+            yield minimal_env(seq_bytes=s), f"try-each-invalid-bottom/{bname}^{d}"
     for d in [x for x in depths if x <= 400]:
-        # value sharing (tags 28/29): every level refers twice to the previous one - 2^d items behind ~9*d bytes
-        for place in ("components", "manifest-member", "payload"):
-            items = [b"\xd8\x1c" + cb.enc([0])]
+        # value sharing (tags 28/29): every level refers twice to the previous one - 2^d items behind ~9*d bytes; the tag numbers in their
+        # shortest form (d8 1c / d8 1d) and with 2-, 4- and 8-byte arguments
+        for place, width in [(p, 1) for p in ("components", "manifest-member", "payload")] + [("components", 2), ("manifest-member", 4), ("payload", 8), ("components", 8)]:
+            t28, t29 = ((b"\xd8\x1c", b"\xd8\x1d") if width == 1 else
+                        tuple({2: b"\xd9", 4: b"\xda", 8: b"\xdb"}[width] + n.to_bytes(width, "big") for n in (28, 29)))
+            items = [t28 + cb.enc([0])]
             for i in range(d):
-                items.append(b"\xd8\x1c\x82" + (b"\xd8\x1d" + cb.enc(i)) * 2)
+                items.append(t28 + b"\x82" + (t29 + cb.enc(i)) * 2)
             laughs = cb.head(4, len(items)) + b"".join(items)
+            if width != 1:
+                place_name = f"{place}/tag-width-{width}"
+                if place == "components":
+                    yield minimal_env(comps=cb.Raw(laughs)), f"shared-references/{place_name}^{d}"
+                elif place == "manifest-member":
+                    yield minimal_env(seq_bytes=laughs), f"shared-references/{place_name}^{d}"
+                else:
+                    yield minimal_env(extra_env=[("#p", cb.Raw(laughs))]), f"shared-references/{place_name}^{d}"
+                continue
             if place == "components":
                 yield minimal_env(comps=cb.Raw(laughs)), f"shared-references/{place}^{d}"
             elif place == "manifest-member":
@@ -555,11 +587,14 @@ def run_shard(ctx, spec):
         depths = [10, 100, 150, 400, 1000, 3000] if not ctx.thorough else [10, 50, 100, 150, 200, 400, 1000, 3000, 5000]
         depths += [12, 16, 20, 24, 30, 40]
         cases = list(nesting_cases(sorted(set(depths))))
-        results = isolated_batch(ctx, [d for d, _ in cases])
+        results = isolated_batch(ctx, [d for d, _ in cases], families=[n.split("^")[0] for _, n in cases])
         confirmed = set()
         for (data, name), res in zip(cases, results):
             outcome, detail = res if res else ("slow", "not evaluated")
             fam = name.split("^")[0]
+            if outcome == "skipped-same-family":
+                acc.note("resource_excess_same_family")
+                continue
             acc.case(nt_key=("nesting", name), classes=["nesting", f"nest:{fam.split('/')[0]}", f"outcome:{outcome}"], sample={"nesting": name, "bytes": len(data), "outcome": outcome} if (hash(name) & 7) == 0 else None,
                      sample_key=f"nest/{fam}")
             if outcome == "escape":
